@@ -64,9 +64,9 @@ func init() {
 		B := ex.B
 		ns := ex.input("time.Now", "int64", smt.BV(64))
 		lim := uint64(1) << 62
-		ex.assume(B.And(B.Slt(B.BVC(-lim, 64), ns), B.Slt(ns, B.BVC(lim, 64))))
+		ex.assumeNoCheck(B.And(B.Slt(B.BVC(-lim, 64), ns), B.Slt(ns, B.BVC(lim, 64))))
 		if ex.clockLast != nil {
-			ex.assume(B.Sle(ex.clockLast, ns))
+			ex.assumeNoCheck(B.Sle(ex.clockLast, ns)) // clockLast is itself below the limit: always satisfiable
 		}
 		ex.clockLast = ns
 		done(ex.mkTime(ns))
